@@ -331,7 +331,28 @@ _DISPATCHERS = {}
 def structure_key(cfg, is_async):
     methods = [{k: v for k, v in m.items() if k not in ('body', 'post')} for m in cfg['methods']]
     return json.dumps([methods, cfg.get('middlewares'), cfg.get('handlers'), cfg.get('max_batch_size'), is_async,
-                       cfg.get('concurrent_batch')], sort_keys=True)
+                       cfg.get('concurrent_batch'), cfg.get('json_hooks')], sort_keys=True)
+
+
+HOOK_CALLS = {'loads': 0, 'dumps': 0}
+
+
+def _hook_loads(text, *a, **kw):
+    HOOK_CALLS['loads'] += 1
+    return json.loads(text, *a, **kw)
+
+
+def _hook_dumps(obj, *a, **kw):
+    HOOK_CALLS['dumps'] += 1
+    return json.dumps(obj, *a, **kw)
+
+
+class HookDecoder(json.JSONDecoder):
+    pass
+
+
+class HookEncoder(pjrpc.server.JSONEncoder):
+    pass
 
 
 def build_dispatcher(cfg, is_async, fresh=False, coroutine_methods=None):
@@ -354,6 +375,9 @@ def build_dispatcher(cfg, is_async, fresh=False, coroutine_methods=None):
             for e in cfg['handlers']}
     if is_async and cfg.get('concurrent_batch') is not None:
         kwargs['concurrent_batch'] = cfg['concurrent_batch']
+    if cfg.get('json_hooks'):
+        # the user's own codec hooks, each equivalent to the default it replaces: nothing about the answers may change
+        kwargs.update(json_loader=_hook_loads, json_dumper=_hook_dumps, json_encoder=HookEncoder, json_decoder=HookDecoder)
     cls_d = pjrpc.server.AsyncDispatcher if is_async else pjrpc.server.Dispatcher
     if kwargs.get('middlewares') or kwargs.get('error_handlers'):
         # the same middleware list / handler table *objects* configure another dispatcher first (a shared setting):
